@@ -139,7 +139,14 @@ Inductive api : Type :=
                                      capacity of its result (repo fix c5165a3), so append REPLACES the field by a fresh
                                      array: the structure changes, no payload byte is written *)
 | ASetBoxDecoder                  (* mp4.SetBoxDecoder: excluded by the property, modelled to show why *)
-| ARemoveBoxDecoder.
+| ARemoveBoxDecoder
+| ADecodeLazy (s : src) (d : nat) (* mp4.DecodeFile(bytes.NewReader(buf), WithDecodeMode(DecModeLazyMdat)) -> object d: the other
+                                     boxes' byte fields are copied as by ADecode, DecodeMdatLazily keeps only the payload SIZE
+                                     (MdatBox.Data stays nil): the object holds no view of buf *)
+| AReadData (o : nat) (s : src) (d : nat).
+                                  (* MdatBox.ReadData(start, size, bytes.NewReader(buf of s)) on every mdat of o -> byte ranges d.
+                                     Two branches (mp4/mdat.go): lazy mdat -> Seek + ReadFull of rs into a FRESH buffer;
+                                     otherwise rs is ignored and the result is m.Data[a:b:b], a view of the payload of o *)
 
 (* object o of thread t: structure cell and own payload cell *)
 Definition sloc (t : thread) (o : nat) : loc := Obj t (2 * o)%nat.
@@ -202,6 +209,11 @@ Definition api_fp (t : thread) (st : astate) (a : api) : list loc * list assign 
       ([pl t st o], [(pl t st o, f_conv)])
   | ATouch o =>
       ([sloc t o; pl t st o; gTables], [(sloc t o, f_touch)])
+  | ADecodeLazy s d =>   (* same cells as ADecode: the payload cell of d holds the copied non-mdat byte fields *)
+      ([src_loc t st s; gDecoders; gDecodersSR; gSge; gTables],
+       [(sloc t d, f_struct); (ownp t d, f_payload)])
+  | AReadData o s d =>   (* reads the source through its own ReadSeeker (lazy branch) or the payload of o (in-memory branch) *)
+      ([src_loc t st s; sloc t o; pl t st o; gTables], [(sloc t d, f_struct); (ownp t d, f_payload)])
   | ASetBoxDecoder | ARemoveBoxDecoder =>
       ([gDecoders; gDecodersSR], [(gDecoders, f_touch); (gDecodersSR, f_touch)])
   end.
@@ -211,7 +223,8 @@ Definition api_op (t : thread) (st : astate) (a : api) : op :=
 
 Definition api_next (t : thread) (st : astate) (a : api) : astate :=
   match a with
-  | ADecode _ d | AInfo _ d | AEncode _ d | AEncodeSW _ d => (d, ownp t d) :: st
+  | ADecode _ d | AInfo _ d | AEncode _ d | AEncodeSW _ d | ADecodeLazy _ d => (d, ownp t d) :: st
+  | AReadData o _ d => (d, pl t st o) :: st   (* lazy o: pl = ownp t o (own); SliceReader-decoded o: the input *)
   | ADecodeSR s d => (d, src_loc t st s) :: st
   | ASamples o d | ADecryptInit o d | AInitProtect o d => (d, pl t st o) :: st
   | _ => st
@@ -260,7 +273,7 @@ Definition input_ids (ls : list loc) : list nat :=
 Definition api_target (a : api) : nat :=
   match a with
   | ADecode _ d | ADecodeSR _ d | AInfo _ d | AEncode _ d | AEncodeSW _ d | ASamples _ d => d
-  | ADecryptInit _ d | AInitProtect _ d => d
+  | ADecryptInit _ d | AInitProtect _ d | ADecodeLazy _ d | AReadData _ _ d => d
   | ADecryptWith m _ | AEncryptWith m _ => m
   | AEncrypt o | ADecrypt o | AToByteStream o | AToNaluSample o | ATouch o => o
   | _ => 0%nat
